@@ -625,6 +625,7 @@ def run(ctx):
     known_hit = {}
     repaired = set()
     sampled = set()
+    known_samples = []
     distinct = set()
     nviol = 0
     for r in results:
@@ -663,6 +664,9 @@ def run(ctx):
             ctx.count("known_site_hits")
             d = known_hit.setdefault(r["site"], {})
             d[r["what"]] = d.get(r["what"], 0) + 1
+            if d[r["what"]] == 1 and len(known_samples) < 8 and r["variant"] == "san":
+                known_samples.append(dict(job=r["job"]["name"], variant=r["variant"], k=r["k"], site=r["site"], model=r["pred"],
+                                          real="%s %s %s" % (r["real"]["cls"], r["real"]["status"], " ".join(r["real"]["report"])[:160])))
         elif v == "repaired":
             repaired.add(r["site"])
         elif v == "structure":
@@ -687,6 +691,7 @@ def run(ctx):
                      replay="cd /verif && " + replay_cmd(dict(j, persist=1) if r.get("persist") else j,
                                                          r["k"] if r["k"] is not None else "none", r["variant"])))
     ctx.cov["violating_runs"] = nviol
+    ctx.cov["samples_known_finding"] = known_samples
     for site, d in sorted(known_hit.items()):
         ctx.known("F10 site=" + site, "allocation failure at this unchecked site: " + ", ".join("%s x%d" % kv for kv in sorted(d.items())))
     if repaired:
